@@ -73,6 +73,22 @@ theorem rel_update' (a p : Props) (hnk : propClass ∉ AMap.keys p) : Rel a (AMa
 theorem rel_update (a p : Props) (hp : AMap.has propClass p = false) : Rel a (AMap.update a p) :=
   rel_update' a p (AMap.not_mem_keys_of_has_false _ _ hp)
 
+theorem has_update_of_has (a p : Props) (k : String) (h : AMap.has k a = true) : AMap.has k (AMap.update a p) = true := by
+  induction p generalizing a with
+  | nil => exact h
+  | cons x p ih => rw [AMap.update_cons]; exact ih _ (has_set x.1 k x.2 a h)
+
+theorem has_update_of_mem (a p : Props) (k : String) (h : k ∈ AMap.keys p) : AMap.has k (AMap.update a p) = true := by
+  induction p generalizing a with
+  | nil => simp [AMap.keys] at h
+  | cons x p ih =>
+    rw [AMap.update_cons]
+    simp only [AMap.keys, List.map_cons, List.mem_cons] at h
+    rcases h with h | h
+    · apply has_update_of_has
+      subst h; simp [AMap.has, AMap.get_set_eq]
+    · exact ih _ (by simpa [AMap.keys] using h)
+
 theorem nxLabel_eq : nxLabel = propClass := by decide
 
 end FimVerif.Store
